@@ -141,7 +141,8 @@ def grid_cases(draw):
 
 
 def check_grid(case, ctx):
-    region = case["region"]
+    ints = build.plain_flag(case)
+    region = build.plain(tuple(case["region"]), ints)
     kwargs = dict(adjust=case["adjust"], pixel_register=case["pixel"], meshgrid=case["meshgrid"])
     sp = case.get("spacing")
     if "shape" in case:
@@ -150,10 +151,10 @@ def check_grid(case, ctx):
         size_n, size_e = case["shape"]
     else:
         if isinstance(sp, list):
-            kwargs["spacing"] = tuple(sp)
+            kwargs["spacing"] = build.plain(tuple(sp), ints)
             sp_n, sp_e = sp
         else:
-            kwargs["spacing"] = sp if case.get("spacing_form") == "scalar" else [sp]
+            kwargs["spacing"] = build.plain(sp, ints) if case.get("spacing_form") == "scalar" else [build.plain(sp, ints)]
             sp_n = sp_e = sp
         size_n = size_e = None
     if case["extra"] is not None:
